@@ -17,7 +17,7 @@ let parse_mq_ops (s : string) : mqop array =
   Array.of_list (List.map (fun o ->
       if o = "u" then OUnblock
       else if o.[0] = 'p' then OPush (int_of_string (String.sub o 1 (String.length o - 1)))
-      else if o.[0] = 'r' then begin
+      else if o.[0] = 'r' || o.[0] = 'R' then begin
         let (t, w) = split2 '.' (String.sub o 1 (String.length o - 1)) in
         if w = "pop" then OCall (int_of_string t, "pop", 0)
         else if w = "try" then OCall (int_of_string t, "try", 0)
